@@ -801,6 +801,101 @@ def gen_rdflib_cases(ctx, n: int) -> tuple[list[str], dict]:
     return cases, stats
 
 
+def gen_rdflib_driver_cases(ctx, n: int) -> tuple[list[str], dict]:
+    """The rdflib drivers on real rdflib Graphs / Datasets against the translated drivers on the stand-ins built from what the real
+    containers hand out (iteration order, graphs(), quads(), namespaces()): same frames, same exception classes."""
+    import rdflib
+    from rdflib.graph import DATASET_DEFAULT_GRAPH_ID
+
+    import fam_parse
+    import fam_rdflib
+    import gen as genmod
+    from pyjelly.integrations.rdflib import serialize as rser
+    from pyjelly.integrations.rdflib.parse import Quad, Triple
+    from pyjelly.options import LookupPreset, StreamParameters
+    from pyjelly.serialize.streams import GraphStream, QuadStream, SerializerOptions, TripleStream
+
+    r = ctx.rng
+    cases: list[str] = []
+    stats = {"runs": 0, "frames": 0, "exceptions": {}, "skipped": 0, "by_driver": {}}
+    oo = "[" + "; ".join(f'("{a}"%string, "{c}"%string)' for a, c in oneof_members()) + "]"
+    b = lambda x: "true" if x else "false"  # noqa: E731
+    names = {1: "triples/Graph", 2: "triples/Dataset", 3: "quads/Dataset", 4: "graphs/Dataset", 5: "stream_frames/Dataset", 6: "triples/generator", 7: "quads/generator"}
+    tries = 0
+    while stats["runs"] < n and tries < 6 * n:
+        tries += 1
+        which = r.choice([1, 2, 3, 4, 5, 6, 7])
+        phys = {1: 1, 2: r.choice([1, 3]), 3: 2, 4: 3, 5: r.choice([1, 2, 3]), 6: 1, 7: 2}[which]
+        ar = 3 if which in (1, 6) else 4
+        g = genmod.Gen(r, nprefix=r.randint(1, 4), nname=r.randint(2, 6), ndt=r.randint(1, 2))
+        stmts = fam_parse.rdf11_statements(r, g, r.choice([0, 1, 3, 6, 10]), ar)
+        nd = r.random() < 0.5
+        ns = [(a, c) for a, c in g.namespaces(r.randint(0, 3)) if c] if nd else []
+        empties = r.sample([("I", "http://e.org/g-empty"), ("B", "ge0"), ("I", "urn:empty")], r.randint(0, 2)) if which in (2, 3, 4, 5) and r.random() < 0.4 else []
+        cfg = {"maxn": r.choice([16, 4000]), "maxp": r.choice([0, 4, 150]), "maxd": r.choice([2, 32]), "gen": False, "star": False, "version": r.choice([1, 2]),
+               "delimited": r.random() < 0.8, "nd": nd, "name": "", "frame_size": r.choice([1, 3, 250]),
+               "logical": r.choice({1: [0, 1, 3], 2: [0, 2, 4], 3: [0, 2, 3, 4]}[phys])}
+        dataset = which in (2, 3, 4, 5)
+        mk = lambda: fam_rdflib.build(stmts, ns, dataset, empties)  # noqa: E731
+        # what the containers hand out (fresh copies: iterating a Dataset registers its default graph)
+        if which in (6, 7):
+            tuples = [(Triple if ar == 3 else Quad)(*[fam_rdflib.to_rdflib(t) for t in st]) for st in stmts]
+            obs = {"g": (None, [], []), "graphs": [], "quads": [], "ns": [], "stmts": [list(t) for t in tuples]}
+        elif which == 1:
+            d0 = mk()
+            obs = {"g": (d0.identifier, [list(t) for t in d0], [(p_, n_) for p_, n_ in d0.namespaces()]), "graphs": [], "quads": [], "ns": [], "stmts": []}
+        else:
+            obs = {"g": (None, [], []), "graphs": [(x.identifier, [list(t) for t in x], [(p_, n_) for p_, n_ in x.namespaces()]) for x in mk().graphs()],
+                   "quads": [list(q) for q in mk().quads()], "ns": [(p_, n_) for p_, n_ in mk().namespaces()], "stmts": []}
+        frames, exc = [], None
+        try:
+            preset = LookupPreset(max_names=cfg["maxn"], max_prefixes=cfg["maxp"], max_datatypes=cfg["maxd"])
+            params = StreamParameters(generalized_statements=False, rdf_star=False, version=cfg["version"], delimited=cfg["delimited"],
+                                      namespace_declarations=cfg["nd"], stream_name="")
+            opts = SerializerOptions(flow=None, frame_size=cfg["frame_size"], logical_type=cfg["logical"], params=params, lookup_preset=preset)
+            stream = {1: TripleStream, 2: QuadStream, 3: GraphStream}[phys](encoder=rser.RDFLibTermEncoder(lookup_preset=preset), options=opts)
+            data = iter(tuples) if which in (6, 7) else mk()
+            fn = {1: rser.triples_stream_frames, 2: rser.triples_stream_frames, 3: rser.quads_stream_frames, 4: rser.graphs_stream_frames, 5: rser.stream_frames,
+                  6: rser.triples_stream_frames, 7: rser.quads_stream_frames}[which]
+            it = fn(stream, data)
+            while True:
+                try:
+                    frames.append(next(it))
+                except StopIteration:
+                    break
+        except Exception as e:  # noqa: BLE001
+            exc = type(e).__name__
+        if exc is not None and exc not in EXNS:
+            stats["skipped"] += 1
+            continue
+
+        def rl(x):
+            return "(@O_None SN)" if x is None else robj_lit(x)
+
+        def nsl(l):
+            return "[" + "; ".join(f"({nlist(p_)}, {robj_lit(n_)})" for p_, n_ in l) + "]"
+
+        def tl(l):
+            return "[" + "; ".join("[" + "; ".join(robj_lit(t) for t in st) + "]" for st in l) + "]"
+        try:
+            gi, gt, gn = obs["g"]
+            glit = f"(txr_graph {rl(gi)} {tl(gt)} {nsl(gn)})"
+            graphs_lit = "[" + "; ".join(f"(txr_graph {rl(i_)} {tl(t_)} {nsl(n_)})" for i_, t_, n_ in obs["graphs"]) + "]"
+            lhs = (f"txr_driver {oo} ({which}) ({phys}) ({cfg['maxn']}) ({cfg['maxp']}) ({cfg['maxd']}) false false ({cfg['version']}) {b(cfg['delimited'])} {b(cfg['nd'])} []%N "
+                   f"({cfg['frame_size']}) ({cfg['logical']}) {glit} {graphs_lit} {tl(obs['quads'])} {nsl(obs['ns'])} {tl(obs['stmts'])}")
+        except ValueError:
+            stats["skipped"] += 1
+            continue
+        rhs = "([" + "; ".join(pb_canon_lit(f) for f in frames) + "], " + ("None" if exc is None else f"Some {exc}") + ")"
+        cases.append(f"{lhs} = {rhs}")
+        stats["runs"] += 1
+        stats["frames"] += len(frames)
+        stats["by_driver"][names[which]] = stats["by_driver"].get(names[which], 0) + 1
+        if exc:
+            stats["exceptions"][exc] = stats["exceptions"].get(exc, 0) + 1
+    return cases, stats
+
+
 def coq_file_rdflib(cases: list[str]) -> str:
     body = ["From PJ.Model Require Import Base.", "From PJ.Tie Require Import PyPrims StrN TxRun TxRunRdflib.", "From PJ.Gen Require Import RdflibSerializeGen.",
             "Local Open Scope Z_scope."]
